@@ -121,9 +121,21 @@ class Gate:
         """{role: [validator functions]} among everything the two constructors reach"""
         if "validators" not in self._stage:
             out = {}
+            # who calls whom (closures count as their function): a predicate only other validators call is a part of them
+            callers = {}
+            for k2, b2 in self.f.bodies.items():
+                if b2.crate.startswith("cozy_chess"):
+                    owner = k2.split("::{closure")[0]
+                    for bb_, t_ in b2.calls():
+                        cn = callee_name(t_)
+                        if cn:
+                            callers.setdefault(cn, set()).add(owner)
             for k in reachable_bodies(self.f, [B + "::from_fen", BUILDER + "::build"]):
                 r = self.validator_role(k)
                 if r is not None and self.f.bodies[k].crate == "cozy_chess" and not self.f.fns.get(k, {}).get("pub"):
+                    cs = callers.get(k, set()) - {k}
+                    if cs and all(self.validator_role(c) is not None for c in cs):
+                        continue
                     out.setdefault(r, []).append(k)
             self._stage["validators"] = {r: sorted(v) for r, v in out.items()}
         return self._stage["validators"]
